@@ -72,6 +72,9 @@ def float_meshes(tier):
     with core.quiet():
         geo = m.mulgrid().rectangular([10.0] * 6, [10.0] * 5, [10.0, 20.0], atmos_type=0)
         out.append(("r6x5", geo))
+        # the same object again after it has been queried: moved and turned between two rounds of queries
+        out.append(("r6x5_then_translated", (geo, lambda g: g.translate(np.array([137.5, -42.25, 0.0])))))
+        out.append(("r6x5_then_rotated", (geo, lambda g: g.rotate(33.0))))
         geo = m.mulgrid().rectangular([3.0, 40.0, 700.0, 40.0, 3.0], [700.0, 3.0, 40.0, 3.0], [10.0, 20.0], atmos_type=0, origin=[1000.0, -500.0, 0.0])
         geo.rotate(31.0)
         out.append(("rot_multi", geo))
@@ -188,7 +191,15 @@ def replay_lattice(rep, name, geo, pr, emitted):
         if key not in qcache:
             qcache[key] = geo.column_quadtree([cols[i - 1] for i in cl] if cl else None)
         return qcache[key]
-    for e in emitted:
+    half = len(emitted) // 2 if name in ("r4x3", "mixed") else None
+    for ne, e in enumerate(emitted):
+        if ne == half:
+            # the geometry is moved (by a lattice vector) between two rounds of queries on the same object
+            with core.quiet():
+                geo.translate(np.array([float(8 * pr.h), float(-4 * pr.h), 0.0]))
+            pr.x0, pr.y0 = pr.x0 + 8 * pr.h, pr.y0 - 4 * pr.h
+            bpoly = [lm.real_xy(pr, v) for v in pr.bpoly]
+            qcache.clear()
         if e["k"] == "tree":
             d = compare_tree(rep, name, pr, e["t"], geo.column_quadtree())
             rep.case(("tree", name))
@@ -542,6 +553,10 @@ def run(tier):
     rep.extra["negative_configurations"] = neg
     for name, geo in float_meshes(tier):
         n = {"quick": (150, 60), "thorough": (1500, 600)}[tier]
+        if isinstance(geo, tuple):
+            geo, move = geo
+            with core.quiet():
+                move(geo)
         differential(rep, name, geo, rng, *n)
         rep.sample("%s: %d columns, exact differential" % (name, geo.num_columns))
     rep.leaves = ["exact rational winding number, Cyrus-Beck clip and exhaustive search (lib/locmodel.py) as the oracle on meshes off the lattice",
